@@ -6,22 +6,26 @@ use avra_lib::expr::Expr;
 use avra_lib::instruction::register::Reg8;
 use avra_lib::parser::SegmentType;
 
-/// Which table binds the symbol named `s`.
+/// Which table binds the symbol named `s` (convenience for single-binding harnesses).
 #[derive(Clone, Copy, PartialEq, Eq)]
 pub enum Tab {
     None,
     Define,
     Equ,
     Set,
+    Special,
     Label,
 }
 
 pub struct Ctx {
     /// reduced core (one-word lds/sts)
     pub avr8l: bool,
-    /// binding of the identifier "s"
-    pub s_tab: Tab,
-    pub s_val: i64,
+    /// bindings of the identifier "s", one slot per symbol table
+    pub s_define: Option<i64>,
+    pub s_equ: Option<i64>,
+    pub s_set: Option<i64>,
+    pub s_special: Option<i64>,
+    pub s_label: Option<u32>,
     /// value of the special symbol "pc" (what pass 2 installs), if any
     pub pc: Option<i64>,
     /// `.def a = rN`
@@ -30,7 +34,32 @@ pub struct Ctx {
 
 impl Ctx {
     pub fn plain() -> Ctx {
-        Ctx { avr8l: false, s_tab: Tab::None, s_val: 0, pc: None, alias: None }
+        Ctx {
+            avr8l: false,
+            s_define: None,
+            s_equ: None,
+            s_set: None,
+            s_special: None,
+            s_label: None,
+            pc: None,
+            alias: None,
+        }
+    }
+
+    /// context with `s` bound in one table
+    pub fn with(avr8l: bool, tab: Tab, val: i64, pc: Option<i64>) -> Ctx {
+        let mut c = Ctx::plain();
+        c.avr8l = avr8l;
+        c.pc = pc;
+        match tab {
+            Tab::None => {}
+            Tab::Define => c.s_define = Some(val),
+            Tab::Equ => c.s_equ = Some(val),
+            Tab::Set => c.s_set = Some(val),
+            Tab::Special => c.s_special = Some(val),
+            Tab::Label => c.s_label = Some(val as u32),
+        }
+        c
     }
 }
 
@@ -62,13 +91,22 @@ fn is(name: &String, lit: &str) -> bool {
 
 impl Context for Ctx {
     fn get_define(&self, n: &String) -> Option<Expr> {
-        if self.s_tab == Tab::Define && is(n, "s") { Some(Expr::Const(self.s_val)) } else { None }
+        match self.s_define {
+            Some(v) if is(n, "s") => Some(Expr::Const(v)),
+            _ => None,
+        }
     }
     fn get_equ(&self, n: &String) -> Option<Expr> {
-        if self.s_tab == Tab::Equ && is(n, "s") { Some(Expr::Const(self.s_val)) } else { None }
+        match self.s_equ {
+            Some(v) if is(n, "s") => Some(Expr::Const(v)),
+            _ => None,
+        }
     }
     fn get_label(&self, n: &String) -> Option<(SegmentType, u32)> {
-        if self.s_tab == Tab::Label && is(n, "s") { Some((SegmentType::Code, self.s_val as u32)) } else { None }
+        match self.s_label {
+            Some(v) if is(n, "s") => Some((SegmentType::Code, v)),
+            _ => None,
+        }
     }
     fn get_def(&self, n: &String) -> Option<Reg8> {
         match self.alias {
@@ -77,11 +115,18 @@ impl Context for Ctx {
         }
     }
     fn get_set(&self, n: &String) -> Option<Expr> {
-        if self.s_tab == Tab::Set && is(n, "s") { Some(Expr::Const(self.s_val)) } else { None }
+        match self.s_set {
+            Some(v) if is(n, "s") => Some(Expr::Const(v)),
+            _ => None,
+        }
     }
     fn get_special(&self, n: &String) -> Option<Expr> {
         match self.pc {
-            Some(pc) if is(n, "pc") => Some(Expr::Const(pc)),
+            Some(pc) if is(n, "pc") => return Some(Expr::Const(pc)),
+            _ => {}
+        }
+        match self.s_special {
+            Some(v) if is(n, "s") => Some(Expr::Const(v)),
             _ => None,
         }
     }
